@@ -68,6 +68,12 @@ type ScriptStream struct {
 	CloseErr   bool         // Close reports an error (e.g. the owner had closed the connection already)
 	YieldEvery int          // inject runtime.Gosched() every n operations
 	WritesFail bool         // every Write fails while Reads go on working (a peer that stopped reading)
+	// LazyClose: Close does not wake a Read which is blocked waiting for the
+	// peer (the pipe:// transport, or a user's Stream, behaves so): that Read
+	// stays blocked until the peer says something or Release is called; Reads
+	// and Writes started after the Close fail.
+	LazyClose bool
+	lazyHold  bool // a Read was blocked when the lazy Close happened and is still held
 
 	// OnWrite is called inside Write, after the bytes were recorded and
 	// before Write returns, without the stream lock held.
@@ -115,13 +121,17 @@ func (s *ScriptStream) fire(k int, f *Fault) {
 // Read implements io.Reader.
 func (s *ScriptStream) Read(p []byte) (int, error) {
 	s.mu.Lock()
-	for len(s.in) == 0 && !s.inClosed && s.failed == nil && !s.closed && !s.armedFail && !s.halfClosed {
+	if s.closed {
+		s.mu.Unlock()
+		return 0, ErrStreamClosed
+	}
+	for len(s.in) == 0 && !s.inClosed && s.failed == nil && (!s.closed || s.lazyHold) && !s.armedFail && !s.halfClosed {
 		s.waiters++
 		s.cond.Broadcast()
 		s.cond.Wait()
 		s.waiters--
 	}
-	if s.closed {
+	if s.closed && !s.lazyHold {
 		s.mu.Unlock()
 		return 0, ErrStreamClosed
 	}
@@ -310,6 +320,9 @@ func (s *ScriptStream) Write(p []byte) (int, error) {
 // Close implements io.Closer (the local side closes).
 func (s *ScriptStream) Close() error {
 	s.mu.Lock()
+	if s.LazyClose && s.waiters > 0 && !s.closed {
+		s.lazyHold = true
+	}
 	s.closed = true
 	s.closeCount++
 	s.cond.Broadcast()
@@ -319,6 +332,15 @@ func (s *ScriptStream) Close() error {
 		return errors.New("scriptstream: close failed (injected)")
 	}
 	return nil
+}
+
+// Release ends a Read left blocked by a lazy Close (the test is over).
+func (s *ScriptStream) Release() {
+	s.mu.Lock()
+	s.closed = true
+	s.lazyHold = false
+	s.cond.Broadcast()
+	s.mu.Unlock()
 }
 
 // ---- the peer's side -------------------------------------------------------
